@@ -208,10 +208,14 @@ where
 {
     type Stream = Self;
 
-    fn into_parts(self) -> (Vector<VectorDiffContainerStreamElement<S>>, Self::Stream) {
+    fn into_parts(mut self) -> (Vector<VectorDiffContainerStreamElement<S>>, Self::Stream) {
         // Hand over the current (limited) view, not the replica of the underlying vector.
         let mut values = self.buffered_vector.clone();
         values.truncate(self.limit);
+
+        // The view handed over already contains the effect of the diffs that are still
+        // waiting in `ready_values`; handing them out afterwards would apply them twice.
+        while S::Item::pop_from_head_buf(&mut self.ready_values).is_some() {}
 
         (values, self)
     }
